@@ -17,7 +17,7 @@ from ..common import Skip, brief
 ID = "C02"
 CASES = {"quick": 8000, "thorough": 80000}
 FLOOR = {"quick": 6000, "thorough": 60000}
-FLOOR_COUNTERS = {"quick": {"configured_not_by_constructor": 3000, "non_default_containers": 3000, "integer_typed_inputs": 500, "warm_started_fits": 500, "estimators_with_a_past": 600, "small_unit_fits": 400, "picks_judged": 18000, "ties_at_pick": 500}, "thorough": {"configured_not_by_constructor": 30000, "non_default_containers": 30000, "integer_typed_inputs": 5000, "warm_started_fits": 6000, "estimators_with_a_past": 7000, "small_unit_fits": 4000, "picks_judged": 300000, "ties_at_pick": 6000}}
+FLOOR_COUNTERS = {"quick": {"integer_typed_targets": 200, "configured_not_by_constructor": 3000, "non_default_containers": 3000, "integer_typed_inputs": 500, "warm_started_fits": 500, "estimators_with_a_past": 600, "small_unit_fits": 400, "picks_judged": 18000, "ties_at_pick": 500}, "thorough": {"integer_typed_targets": 2500, "configured_not_by_constructor": 30000, "non_default_containers": 30000, "integer_typed_inputs": 5000, "warm_started_fits": 6000, "estimators_with_a_past": 7000, "small_unit_fits": 4000, "picks_judged": 300000, "ties_at_pick": 6000}}
 RULE = (
     "case = (FPS | PCov-FPS) x (feature | sample), matrix family (gauss, lattice with exact ties, clustered, duplicated, "
     "scaled, low-rank ...), mixing in {0,.1,.5,.9,.999}, initialisation int/'random'/list/ndarray, n_to_select in [len(init), N]; "
@@ -81,6 +81,14 @@ def gen(rng, tier, index):
     if rng.random() < 0.12 and float(np.abs(X).max()) > 0:  # whole-number data (counts, grid indices) with an integer dtype
         X = np.round(X / float(np.abs(X).max()) * 40.0)
         spec["xint"] = gens.pick(rng, ("int64", "int32"))
+    if y is not None and rng.random() < 0.2 and float(np.abs(y).max()) > 0:
+        # whole-number targets (labels, counts, grey levels) stored in a narrow integer dtype
+        yint = gens.pick(rng, ("int8", "uint8", "int16", "int32", "int64"))
+        top = {"int8": 120, "uint8": 250, "int16": 3000, "int32": 200000, "int64": 5000}[yint]
+        y = np.round(y / float(np.abs(y).max()) * top)
+        if yint == "uint8":
+            y = np.abs(y)
+        spec["yint"] = yint
     # the same configuration and the same numbers through another public route / container
     spec["how"] = gens.pick(rng, forms.CONFIGURE)
     spec["xform"] = gens.pick(rng, forms.PRESENT)
@@ -121,6 +129,8 @@ def run(case, j):
         j.note("non_default_containers")
     if spec.get("xint"):
         j.note("integer_typed_inputs")
+    if spec.get("yint"):
+        j.note("integer_typed_targets")
     axis = sel.axis_of(spec)
     N = X.shape[axis]
     kw = spec["kw"]
